@@ -63,7 +63,7 @@ SQL_START = re.compile(r'^\s*(CREATE|PRAGMA|BEGIN|COMMIT|ROLLBACK|INSERT|UPDATE|
 
 
 def tokens(sql):
-    return re.findall(r"[A-Za-z_][A-Za-z_0-9]*|\d+|\?|[(),;=*+\-<>.]|'[^']*'", sql)
+    return re.findall(r"[A-Za-z_][A-Za-z_0-9]*|\d+|\?|[(),;=*+\-<>.!]|'[^']*'", sql)
 
 
 class Unparsed(Exception):
@@ -257,14 +257,51 @@ def parse(sql):
 
 
 def parse_where(p, nparam):
+    """WHERE conj; each conjunct is one of
+         ('eq'|'ne', col, ('param', k) | ('lit', text) | ('int', n))
+         ('isnull'|'notnull', col)
+         ('in'|'notin', col, (table, subcol, subconj))"""
     conj = []
     if p.opt('WHERE'):
         while True:
             c = p.ident()
-            p.eat('=')
-            p.eat('?')
-            conj.append((c, nparam))
-            nparam += 1
+            if p.opt('IS'):
+                neg = p.opt('NOT')
+                p.eat('NULL')
+                conj.append(('notnull' if neg else 'isnull', c))
+            elif p.up() in ('IN', 'NOT'):
+                neg = p.opt('NOT')
+                p.eat('IN')
+                p.eat('(')
+                p.eat('SELECT')
+                sc = p.ident()
+                p.eat('FROM')
+                st = p.ident()
+                sub, nparam = parse_where(p, nparam)
+                p.eat(')')
+                conj.append(('notin' if neg else 'in', c, (st, sc, sub)))
+            else:
+                op = p.eat()
+                if op == '<':
+                    p.eat('>')
+                    op = '!='
+                elif op == '!':
+                    p.eat('=')
+                    op = '!='
+                elif op != '=':
+                    raise Unparsed('comparison operator %s' % op)
+                kind = 'eq' if op == '=' else 'ne'
+                if p.opt('?'):
+                    conj.append((kind, c, ('param', nparam)))
+                    nparam += 1
+                else:
+                    t = p.eat()
+                    if t.startswith("'"):
+                        conj.append((kind, c, ('lit', t[1:-1])))
+                    elif re.match(r'^\d+$', t):
+                        conj.append((kind, c, ('int', int(t))))
+                    else:
+                        raise Unparsed('comparison operand %s' % t)
             if not p.opt('AND'):
                 break
     return conj, nparam
@@ -382,6 +419,59 @@ def rust_str(s):
     return '"' + s.replace('\\', '\\\\').replace('"', '\\"').replace('\n', '\\n').replace('\t', '\\t') + '"'
 
 
+SUBS = []
+
+
+def cond_expr(w, name, row, t, conj, tables, order, col_index):
+    """Rust boolean expression for a WHERE conjunction over row variable `row` of table `t`"""
+    parts = []
+    for c in conj:
+        kind = c[0]
+        ci = col_index(t, c[1])
+        if kind in ('eq', 'ne'):
+            rhs = c[2]
+            if rhs[0] == 'param':
+                r = 'p.v[%d]' % rhs[1]
+            elif rhs[0] == 'lit':
+                if len(rhs[1].encode()) > 36:
+                    raise Unparsed('string literal longer than 36 bytes')
+                r = 'lit_text(%s)' % rust_str(rhs[1])
+            else:
+                r = 'Val::Int(%d)' % rhs[1]
+            parts.append('sql_eq(&%s[%d], &%s)' % (row, ci, r) if kind == 'eq' else 'sql_ne(&%s[%d], &%s)' % (row, ci, r))
+        elif kind == 'isnull':
+            parts.append('matches!(%s[%d], Val::Null)' % (row, ci))
+        elif kind == 'notnull':
+            parts.append('!matches!(%s[%d], Val::Null)' % (row, ci))
+        else:
+            st2, sc, sub = c[2]
+            if st2 not in order:
+                raise Unparsed('no such table ' + st2)
+            ti2 = order.index(st2)
+            sci = col_index(st2, sc)
+            fn = '%s_sub%d' % (name, len(SUBS))
+            inner = cond_expr(w, fn, 'r2', st2, sub, tables, order, col_index)
+            SUBS.append(fn)
+            w('/// sub-select of the statement below: three-valued IN (1 = match, 2 = no match but a NULL in the set, 0 = no match)')
+            w('fn %s(p: &Bound, v: &Val) -> u8 {' % fn)
+            w('    let mut res = 0u8; let mut i = 0;')
+            w('    while i < NR {')
+            w('        let r2 = stmt_snap().t[%d].rows[i];' % ti2)
+            w('        if stmt_snap().t[%d].used[i] && %s {' % (ti2, inner))
+            w('            if sql_eq(&r2[%d], v) { res = 1; } else if matches!(r2[%d], Val::Null) && res == 0 { res = 2; }' % (sci, sci))
+            w('        }')
+            w('        i += 1;')
+            w('    }')
+            w('    let _ = p;')
+            w('    res')
+            w('}')
+            if kind == 'in':
+                parts.append('(!matches!(%s[%d], Val::Null) && %s(p, &%s[%d]) == 1)' % (row, ci, fn, row, ci))
+            else:
+                parts.append('(!matches!(%s[%d], Val::Null) && %s(p, &%s[%d]) == 0)' % (row, ci, fn, row, ci))
+    return ' && '.join(parts) or 'true'
+
+
 def emit(w, name, st, tables, order, col_index):
     k = st[0]
     if k == 'unmodelled':
@@ -443,10 +533,11 @@ def emit(w, name, st, tables, order, col_index):
         w('pub fn %s(c: usize, p: &Bound) -> StmtResult {' % name)
         w('    if p.n != %d { return StmtResult::BadParams; }' % nparam)
         w('    if let Some(e) = write_gate(c) { return e; }')
+        w('    snap_stmt();')
         w('    let mut n = 0; let mut i = 0;')
         w('    while i < NR {')
         w('        let old = db().t[%d].rows[i];' % ti)
-        cond = ' && '.join('sql_eq(&old[%d], &p.v[%d])' % (col_index(t, c), pi) for c, pi in where) or 'true'
+        cond = cond_expr(w, name, 'old', t, where, tables, order, col_index)
         w('        if db().t[%d].used[i] && %s {' % (ti, cond))
         w('            let mut new = old;')
         for c, e in sets:
@@ -476,10 +567,11 @@ def emit(w, name, st, tables, order, col_index):
         w('pub fn %s(c: usize, p: &Bound) -> StmtResult {' % name)
         w('    if p.n != %d { return StmtResult::BadParams; }' % nparam)
         w('    read_gate(c);')
+        w('    snap_stmt();')
         w('    let mut found = NR; let mut best = u32::MAX; let mut i = 0;')
         w('    while i < NR {')
         w('        let r = db().t[%d].rows[i];' % ti)
-        cond = ' && '.join('sql_eq(&r[%d], &p.v[%d])' % (col_index(t, c), pi) for c, pi in where) or 'true'
+        cond = cond_expr(w, name, 'r', t, where, tables, order, col_index)
         w('        if db().t[%d].used[i] && %s && db().t[%d].rowid[i] < best { found = i; best = db().t[%d].rowid[i]; }' % (ti, cond, ti, ti))
         w('        i += 1;')
         w('    }')
@@ -499,10 +591,11 @@ def emit(w, name, st, tables, order, col_index):
         w('pub fn %s(c: usize, p: &Bound) -> StmtResult {' % name)
         w('    if p.n != %d { return StmtResult::BadParams; }' % nparam)
         w('    if let Some(e) = write_gate(c) { return e; }')
+        w('    snap_stmt();')
         w('    let mut n = 0; let mut i = 0;')
         w('    while i < NR {')
         w('        let r = db().t[%d].rows[i];' % ti)
-        cond = ' && '.join('sql_eq(&r[%d], &p.v[%d])' % (col_index(t, c), pi) for c, pi in where) or 'true'
+        cond = cond_expr(w, name, 'r', t, where, tables, order, col_index)
         w('        if db().t[%d].used[i] && %s { db().t[%d].used[i] = false; n += 1; }' % (ti, cond, ti))
         w('        i += 1;')
         w('    }')
